@@ -275,6 +275,13 @@ def main(argv):
         mod.run(prog, res)
     except grammar_run.AIUnavailable as e:
         gram.ai_unavailable(res, e)      # fail closed: the rules of this module that need the interpreter were not evaluated
+    except Exception as e:               # a rule met a shape of the code it cannot interpret: fail closed, with the place
+        import traceback
+        tb = traceback.extract_tb(e.__traceback__)
+        where = "; ".join(f"{os.path.basename(f.filename)}:{f.lineno} {f.name}" for f in tb[-3:])
+        res.ob("CHECKER-ERROR", f"{pid} rules could not be evaluated on this tree", False, "",
+               f"{type(e).__name__}: {e} at {where}. A rule anchored on a specific shape of the code (a field, an enum variant, an argument position) met a tree it does not understand; "
+               "the obligations recorded before this point stand, the remaining ones were not evaluated")
     stats = {c: len(prog.by_crate[c]) for c in CRATES}
     stats["bodies_total"] = sum(stats.values())
     if want is not None:
